@@ -199,6 +199,8 @@ def audit_meta(ck, m, ctx):
         ck.violation(f"QBytesTensor payload shape {m['data_shape']} differs from the reported shape {m['shape']} (after {ctx.get('op')})", rep)
     if m["data_dtype"] != m["storage"]:
         ck.violation(f"payload dtype {m['data_dtype']} is not the storage type {m['storage']} of {m['qtype']}", rep)
+    if m["cls"] == "QBitsTensor" and m.get("zp_dtype") not in (None, "torch.int8"):
+        ck.violation(f"QBitsTensor holds a zero-point of dtype {m.get('zp_dtype')} instead of int8 (after {ctx.get('op')}): a move must change only the dtype of the scale", rep)
     if not scale_shape_ok(m):
         ck.violation(f"scale shape {m['scale_shape']} does not broadcast along the declared axis {m['axis']} of shape {m['shape']} (after {ctx.get('op')})", rep)
     fm = m.get("flat_meta", {})
@@ -412,6 +414,15 @@ def run(pid, tier):
         {"operands": [act("qfloat8_e4m3fn", scale=0.05, zeros=3), act("qfloat8_e4m3fn", scale=0.05, zeros=4)], "steps": [{"op": "lt", "args": [{"reg": 0}, {"reg": 1}]}]},
         {"operands": [act(scale=0.05, zeros=1), act(scale=0.05, zeros=2)], "steps": [{"op": "lt", "args": [{"reg": 0}, {"reg": 1}]}]},
         {"operands": [act()], "steps": [{"op": "copy_into_plain", "args": [{"reg": 0}]}]},
+        # pass-through functions called with the quantized tensor BY KEYWORD
+        {"operands": [act()], "steps": [{"op": "topk_kw", "args": [{"reg": 0}]}]},
+        {"operands": [act("qfloat8_e4m3fn")], "steps": [{"op": "log_softmax_kw", "args": [{"reg": 0}]}]},
+        {"operands": [act(scale=0.05), act(scale=0.07)], "steps": [{"op": "cosine_kw", "args": [{"reg": 0}, {"reg": 1}]}]},
+        # softmax of large tensors (>= 1024 elements) with a wide dynamic range: logits scaled by 20, rows far below the tensor maximum, additive masks
+        {"operands": [{"kind": "qact", "qtype": "qint8", "shape": [32, 40], "dtype": "float32", "mag": 20.0, "rowshift": 300.0}], "steps": [{"op": "softmax", "args": [{"reg": 0}]}]},
+        {"operands": [{"kind": "qact", "qtype": "qint8", "shape": [4, 16, 16], "dtype": "float32", "mag": 30.0, "rowshift": 500.0}], "steps": [{"op": "softmax", "args": [{"reg": 0}]}]},
+        {"operands": [{"kind": "qact", "qtype": "qint8", "shape": [40, 40], "dtype": "float32", "mag": 3.0}], "steps": [{"op": "softmax_masked", "args": [{"reg": 0}]}]},
+        {"operands": [{"kind": "qact", "qtype": "qint8", "shape": [64, 32], "dtype": "float16", "mag": 8.0, "rowshift": 200.0}], "steps": [{"op": "softmax", "args": [{"reg": 0}]}]},
         # a 0-dim quantized tensor (an element of a 1-D activation) as a multiplicand, on either side and against per-axis / plain operands
         {"operands": [{"kind": "qact", "qtype": "qint8", "shape": [6], "dtype": "float32"}, {"kind": "qact", "qtype": "qint8", "shape": [5], "dtype": "float32"}],
          "steps": [{"op": "index1d", "args": [{"reg": 1}, {"lit": 2}]}, {"op": "mul_tensor", "args": [{"reg": 0}, {"reg": 2}]}]},
@@ -428,6 +439,18 @@ def run(pid, tier):
         {"operands": [{"kind": "qweight", "qtype": "qint8", "shape": [4, 6], "dtype": "float32", "axis": -1}], "steps": [{"op": "transpose_dd", "args": [{"reg": 0}, {"lit": 1}]}]},
         {"operands": [{"kind": "qweight", "qtype": "qfloat8_e4m3fn", "shape": [5, 5], "dtype": "float32", "axis": 0}], "steps": [{"op": "transpose_dd", "args": [{"reg": 0}, {"lit": -1}]}]},
         {"operands": [act()], "steps": [{"op": "transpose_dd", "args": [{"reg": 0}, {"lit": 1}]}]},
+        # copy_ between quantized tensors of the same shape quantized per-tensor / along the first / along the last axis, every pairing,
+        # then ops that read the declared axis (transpose, slicing)
+        {"operands": [{"kind": "qact", "qtype": "qint8", "shape": [4, 6], "dtype": "float32"}, {"kind": "qact", "qtype": "qint8", "shape": [4, 6], "dtype": "float32"}], "steps": [{"op": "copy_q", "args": [{"reg": 0}, {"reg": 1}]}, {"op": "slice", "args": [{"reg": 2}, {"lit": 1}, {"lit": 3}]}]},
+        {"operands": [{"kind": "qact", "qtype": "qint8", "shape": [4, 6], "dtype": "float32"}, {"kind": "qweight", "qtype": "qint8", "shape": [4, 6], "dtype": "float32", "axis": 0}], "steps": [{"op": "copy_q", "args": [{"reg": 0}, {"reg": 1}]}, {"op": "t", "args": [{"reg": 2}]}]},
+        {"operands": [{"kind": "qact", "qtype": "qint8", "shape": [4, 6], "dtype": "float32"}, {"kind": "qweight", "qtype": "qint8", "shape": [4, 6], "dtype": "float32", "axis": -1}], "steps": [{"op": "copy_q", "args": [{"reg": 0}, {"reg": 1}]}, {"op": "t", "args": [{"reg": 2}]}]},
+        {"operands": [{"kind": "qweight", "qtype": "qint8", "shape": [4, 6], "dtype": "float32", "axis": 0}, {"kind": "qact", "qtype": "qint8", "shape": [4, 6], "dtype": "float32"}], "steps": [{"op": "copy_q", "args": [{"reg": 0}, {"reg": 1}]}, {"op": "slice", "args": [{"reg": 2}, {"lit": 1}, {"lit": 3}]}]},
+        {"operands": [{"kind": "qweight", "qtype": "qint8", "shape": [4, 6], "dtype": "float32", "axis": 0}, {"kind": "qweight", "qtype": "qint8", "shape": [4, 6], "dtype": "float32", "axis": 0}], "steps": [{"op": "copy_q", "args": [{"reg": 0}, {"reg": 1}]}, {"op": "slice", "args": [{"reg": 2}, {"lit": 1}, {"lit": 3}]}]},
+        {"operands": [{"kind": "qweight", "qtype": "qint8", "shape": [4, 6], "dtype": "float32", "axis": 0}, {"kind": "qweight", "qtype": "qint8", "shape": [4, 6], "dtype": "float32", "axis": -1}], "steps": [{"op": "copy_q", "args": [{"reg": 0}, {"reg": 1}]}, {"op": "t", "args": [{"reg": 2}]}]},
+        {"operands": [{"kind": "qweight", "qtype": "qint8", "shape": [4, 6], "dtype": "float32", "axis": -1}, {"kind": "qact", "qtype": "qint8", "shape": [4, 6], "dtype": "float32"}], "steps": [{"op": "copy_q", "args": [{"reg": 0}, {"reg": 1}]}, {"op": "slice", "args": [{"reg": 2}, {"lit": 1}, {"lit": 3}]}]},
+        {"operands": [{"kind": "qweight", "qtype": "qint8", "shape": [4, 6], "dtype": "float32", "axis": -1}, {"kind": "qweight", "qtype": "qint8", "shape": [4, 6], "dtype": "float32", "axis": 0}], "steps": [{"op": "copy_q", "args": [{"reg": 0}, {"reg": 1}]}, {"op": "t", "args": [{"reg": 2}]}]},
+        {"operands": [{"kind": "qweight", "qtype": "qint8", "shape": [4, 6], "dtype": "float32", "axis": -1}, {"kind": "qweight", "qtype": "qint8", "shape": [4, 6], "dtype": "float32", "axis": -1}], "steps": [{"op": "copy_q", "args": [{"reg": 0}, {"reg": 1}]}, {"op": "slice", "args": [{"reg": 2}, {"lit": 1}, {"lit": 3}]}]},
+        {"operands": [{"kind": "qact", "qtype": "qfloat8_e4m3fn", "shape": [4, 6], "dtype": "float32"}, {"kind": "qweight", "qtype": "qfloat8_e4m3fn", "shape": [4, 6], "dtype": "float32", "axis": 0}], "steps": [{"op": "copy_q", "args": [{"reg": 0}, {"reg": 1}]}]},
         # copies own their payload
         {"operands": [act()], "steps": [{"op": "to_dtype", "args": [{"reg": 0}, {"lit": "float16"}]}]},
         # histories with an in-place write after a copy / dtype move: the earlier result must keep its values
